@@ -335,7 +335,7 @@ def file_tag(role, path):
     return None, None
 
 
-def observe(outdir, partial):
+def observe(outdir, partial, zsnap=None):
     """Canonical view of folder + archive. `partial`: rel path -> 'empty'|'half' (from crash reports)."""
     base = os.path.join(outdir, "fit")
     folder, zips, strays = None, [], []
@@ -381,7 +381,10 @@ def observe(outdir, partial):
                         rel = "fit/x/" + os.path.relpath(p, tmp)
                         role = role_of(rel)
                         valid, tag = file_tag(role, p)
-                        mem.append([role, "full" if valid in (True, None) else "bad", tag])
+                        st = (zsnap or {}).get(os.path.relpath(p, tmp), "full")
+                        if valid is not None and role != "SamplesCsv" and valid != (st == "full") and not (role == "StartTime" and st == "half"):
+                            inconsistent.append(["zip:" + role, st, valid])
+                        mem.append([role, st, tag if st == "full" else None])
                 shutil.rmtree(tmp, ignore_errors=True)
                 z = {"state": "full", "members": sorted(mem, key=lambda x: x[0])}
         except zipfile.BadZipFile:
@@ -389,18 +392,31 @@ def observe(outdir, partial):
     return {"files": files, "zip": z, "strays": strays, "nzips": len(zips), "inconsistent": inconsistent}
 
 
-def update_partial(partial, rep):
-    """Bookkeeping of truncated files across the runs of one history (from observed events only)."""
-    for kind, rel in rep.get("trace", []):
-        if kind in ("W", "A", "R", "ZW"):
+def update_partial(partial, rep, zsnap, zip_at_start):
+    """Bookkeeping of truncated files across the runs of one history (from observed events only).
+    `zsnap`: truncated files as stored inside the archive (a one-element list holding a dict)."""
+    extracting = zip_at_start
+    for ev in rep.get("trace", []):
+        kind, rel = ev[0], ev[1]
+        role = role_of(rel)
+        if kind == "R" and role == "Zip":
+            extracting = False
+        elif kind == "W" and extracting:
             partial.pop(rel, None)
-        elif kind.startswith("MV:"):
-            src = kind[3:]
+            member = rel.split("/", 2)[2] if rel.count("/") >= 2 else rel
+            if member in zsnap[0]:
+                partial[rel] = zsnap[0][member]
+        elif kind in ("W", "A", "R"):
+            partial.pop(rel, None)
+        elif kind in ("ZW", "ZTW"):
+            zsnap[0] = {k.split("/", 2)[2]: v for k, v in partial.items() if k.count("/") >= 2}
+        elif kind == "MV":
+            src = ev[2]
             partial.pop(rel, None)
             if src in partial:
                 partial[rel] = partial.pop(src)
     t = rep.get("truncated")
-    if t and role_of(t[0]) not in ("Marker", "Log"):
+    if t and role_of(t[0]) not in ("Marker", "Log", "Zip", "ZipTmp"):
         partial[t[0]] = t[1]
 
 
@@ -420,6 +436,8 @@ def run_history(case, idx):
     shutil.rmtree(outdir, ignore_errors=True)
     os.makedirs(outdir)
     partial = {}
+    zsnap = [{}]
+    zip_at_start = False
     runs = []
     for ri, spec in enumerate(case["runs"]):
         report = os.path.join(SCRATCH, "rep_%d_%d.json" % (idx, ri))
@@ -435,8 +453,9 @@ def run_history(case, idx):
             rep = json.load(open(report))
         except Exception as e:  # noqa
             rep = {"outcome": "driver-error", "msg": "no report: %r" % e, "trace": []}
-        update_partial(partial, rep)
-        obs = observe(outdir, partial)
+        update_partial(partial, rep, zsnap, zip_at_start)
+        obs = observe(outdir, partial, zsnap[0])
+        zip_at_start = obs["nzips"] > 0
         res = rep.get("result")
         runs.append({
             "outcome": rep["outcome"], "msg": rep.get("msg"),
